@@ -77,7 +77,8 @@ def constraint(draw, sp, allow_roots=True, allow_scale=False):
                 e = ["+", e, draw(st.sampled_from(globs))]
             lhs.append(e)
         c["lhs"] = lhs
-        c["grid"] = None
+        # a boundary / point constraint is imposed once, also when the user passes a grid option along with it
+        c["grid"] = draw(st.sampled_from([None, None, None, "control", "integrator"]))
     else:
         pool = sig
         if kind == "roots" and mcls == "DC":
